@@ -279,13 +279,21 @@ def check_finder(col, rule: str, repo: Repo):
     by_name = "func.attr" in s and "func.id" in s
     col.add(rule, "cpp_ast_finder.visit_Call", "matches-method-and-function-style-calls-by-name", by_name,
             "both obj.name(...) and name(...) callees must be looked up by their name", v.loc)
+    # the lookup site - in try_call, or written in line in visit_Call: self._method_names[<name>](<node>) under `<name> in self._method_names`
+    from sa.core.paths import guards as _gd, parent_map as _pmap
+    okt = False
     tc = c.methods.get("try_call")
-    okt = tc is not None and any(isinstance(n, ast.Compare) and isinstance(n.ops[0], ast.In) and src(n.comparators[0]) == "self._method_names"
-                                 for n in ast.walk(tc.node)) and any(
-        isinstance(n, ast.Call) and isinstance(n.func, ast.Subscript) and src(n.func.value) == "self._method_names" and src(n.args[0]) == "node"
-        for n in ast.walk(tc.node))
+    for mf in c.methods.values():
+        pm_ = _pmap(mf.node)
+        for n in ast.walk(mf.node):
+            if isinstance(n, ast.Call) and isinstance(n.func, ast.Subscript) and src(n.func.value) == "self._method_names" and len(n.args) == 1 \
+                    and src(n.args[0]) in [a.arg for a in mf.node.args.args]:
+                key = src(n.func.slice)
+                if (f"{key} in self._method_names", True) in {(src(t), tr) for t, tr in _gd(mf.node, n, pm_)}:
+                    okt = True
     col.add(rule, "cpp_ast_finder.try_call", "callback-of-that-name-applied-to-the-node", bool(okt),
-            "try_call must invoke self._method_names[name](node)", tc.loc if tc else c.module.rel)
+            "the callback registered under the call's name must be invoked with the call node: self._method_names[name](node), under `name in self._method_names`",
+            tc.loc if tc else c.module.rel)
     # the rewriter decides by the call's own name only: it keeps no traversal state (a set of "currently bound" names is wrong as soon
     # as an inner lambda re-uses an outer parameter's name) and defines no handler besides visit_Call
     writes = []
@@ -1697,13 +1705,15 @@ def check_finder_receivers(col, rule: str, repo: Repo):
     if v is None:
         raise AnalysisError("cpp_ast_finder.visit_Call not found")
     pm = parent_map(v.node)
-    tries = [x for x in walk_no_nested(v.node) if isinstance(x, ast.Call) and call_name(x) == "try_call" and x.args]
+    tries = [(x, x.args[0]) for x in walk_no_nested(v.node) if isinstance(x, ast.Call) and call_name(x) == "try_call" and x.args]
+    tries += [(x, x.func.slice) for x in walk_no_nested(v.node) if isinstance(x, ast.Call) and isinstance(x.func, ast.Subscript)
+              and src(x.func.value) == "self._method_names"]
     restricted = []
     n_method_style = 0
-    for t in tries:
+    for t, key_expr in tries:
         site_guards = {(src(g), tr) for g, tr in guards(v.node, t, pm)}
         # the name that is looked up, with the conditions under which it is the callee's attribute name (written at the call, or chosen first)
-        for val, gs in conditional_defs(v.node, t.args[0]):
+        for val, gs in conditional_defs(v.node, key_expr):
             if not src(val).endswith(".attr"):
                 continue
             n_method_style += 1
